@@ -3,9 +3,10 @@
 (* layout and of the offset handling in its Draw (widgets/pager).           *)
 EXTENDS Integers, Sequences
 
-(* Layout: walk the characters; a newline stores the line; a character that *)
-(* does not fit (col > 0) stores the line first; after appending, a full    *)
-(* line is stored; what is left at the end is stored if not empty.          *)
+(* Layout (WITH the repair notes/proposed-fixes/c19-3.diff): walk the       *)
+(* characters; a newline stores the line; a character that does not fit in  *)
+(* what is left of the line (col > 0) stores the line first; what is left   *)
+(* at the end is stored if not empty.                                       *)
 RECURSIVE PLay(_, _, _, _, _, _)
 PLay(text, W, i, cur, col, acc) ==
   IF i > Len(text) THEN (IF cur = <<>> THEN acc ELSE Append(acc, cur))
@@ -15,9 +16,25 @@ PLay(text, W, i, cur, col, acc) ==
                 acc1 == IF wrapFirst THEN Append(acc, cur) ELSE acc
                 cur1 == Append(IF wrapFirst THEN <<>> ELSE cur, <<ch.g, ch.w>>)
                 col1 == (IF wrapFirst THEN 0 ELSE col) + ch.w
-            IN IF col1 >= W THEN PLay(text, W, i + 1, <<>>, 0, Append(acc1, cur1))
-               ELSE PLay(text, W, i + 1, cur1, col1, acc1)
+            IN PLay(text, W, i + 1, cur1, col1, acc1)
 PLayout(text, W) == PLay(text, W, 1, <<>>, 0, <<>>)
+
+(* The layout as found (b8505c1): in addition, after appending, a line that *)
+(* is full is stored at once and an empty one begun - which the newline     *)
+(* that ends the same text line then stores as a row of its own.  Kept as   *)
+(* the negative control of MC_Lists (AsFoundRejected).                      *)
+RECURSIVE PLayAsFound(_, _, _, _, _, _)
+PLayAsFound(text, W, i, cur, col, acc) ==
+  IF i > Len(text) THEN (IF cur = <<>> THEN acc ELSE Append(acc, cur))
+  ELSE LET ch == text[i] IN
+       IF ch.nl THEN PLayAsFound(text, W, i + 1, <<>>, 0, Append(acc, cur))
+       ELSE LET wrapFirst == col > 0 /\ col + ch.w > W
+                acc1 == IF wrapFirst THEN Append(acc, cur) ELSE acc
+                cur1 == Append(IF wrapFirst THEN <<>> ELSE cur, <<ch.g, ch.w>>)
+                col1 == (IF wrapFirst THEN 0 ELSE col) + ch.w
+            IN IF col1 >= W THEN PLayAsFound(text, W, i + 1, <<>>, 0, Append(acc1, cur1))
+               ELSE PLayAsFound(text, W, i + 1, cur1, col1, acc1)
+PLayoutAsFound(text, W) == PLayAsFound(text, W, 1, <<>>, 0, <<>>)
 
 (* Draw's offset handling for `total` laid-out lines in a window of h rows. *)
 POffset(off, total, h) ==
